@@ -135,7 +135,10 @@ pub fn new_key(ctx: &mut Ctx) -> (Vec<u8>, Vec<u8>, Vec<u8>) {
 }
 pub fn make_passkey(ctx: &mut Ctx, id: Vec<u8>, rp: &str, uh: Option<Vec<u8>>, ctr: Option<u32>, hmac: Option<(Vec<u8>, Option<Vec<u8>>)>) -> Passkey {
     let (d, x, y) = new_key(ctx);
-    Passkey { key: CoseKeyBuilder::new_ec2_priv_key(iana::EllipticCurve::P_256, x, y, d).algorithm(iana::Algorithm::ES256).build(),
+    let mut key = CoseKeyBuilder::new_ec2_priv_key(iana::EllipticCurve::P_256, x, y, d).algorithm(iana::Algorithm::ES256).build();
+    // an imported key: the order of a COSE map's members carries no meaning (a third of the keys: d first / reversed)
+    match id.iter().fold(0u8, |a, b| a.wrapping_add(*b)) % 6 { 0 => key.params.reverse(), 1 => { let n = key.params.len(); key.params.rotate_left(n - 1); } _ => {} }
+    Passkey { key,
         credential_id: id.into(), rp_id: rp.to_string(), user_handle: uh.map(Into::into), counter: ctr,
         extensions: CredentialExtensions { hmac_secret: hmac.map(|(a, b)| StoredHmacSecret { cred_with_uv: a, cred_without_uv: b }) } }
 }
@@ -228,7 +231,7 @@ impl MakeOp {
             extensions: self.ext.as_ref().map(|(hs, mc, prf)| make_credential::ExtensionInputs { hmac_secret: *hs, hmac_secret_mc: if *mc { ctx_hmac_input.clone() } else { None }, prf: prf.as_ref().map(prfi_real) }),
             options: make_credential::Options { rk: self.rk, up: self.up, uv: self.uv },
             // a pin protocol number without pinAuth is not looked at
-            pin_auth: if self.pin { Some(vec![1u8; 16].into()) } else { None }, pin_protocol: match self.cdh.last().copied().unwrap_or(0) % 3 { 0 => None, 1 => Some(1), _ => Some(2) },
+            pin_auth: if self.pin { Some(match self.cdh.first().copied().unwrap_or(0) % 3 { 0 => vec![], 1 => vec![1u8; 16], _ => self.cdh.clone() }.into()) } else { None }, pin_protocol: match self.cdh.last().copied().unwrap_or(0) % 3 { 0 => None, 1 => Some(1), _ => Some(2) },
         }
     }
 }
@@ -242,7 +245,7 @@ impl GetOp {
         get_assertion::Request { rp_id: self.rp.clone(), client_data_hash: self.cdh.clone().into(), allow_list: descs(&self.allow, &self.unk),
             extensions: self.ext.as_ref().map(|(hs, prf)| get_assertion::ExtensionInputs { hmac_secret: if *hs { hi.clone() } else { None }, prf: prf.as_ref().map(prfi_real) }),
             options: make_credential::Options { rk: self.rk, up: self.up, uv: self.uv },
-            pin_auth: if self.pin { Some(vec![1u8; 16].into()) } else { None }, pin_protocol: match self.cdh.last().copied().unwrap_or(0) % 3 { 0 => None, 1 => Some(1), _ => Some(2) } }
+            pin_auth: if self.pin { Some(match self.cdh.first().copied().unwrap_or(0) % 3 { 0 => vec![], 1 => vec![1u8; 16], _ => self.cdh.clone() }.into()) } else { None }, pin_protocol: match self.cdh.last().copied().unwrap_or(0) % 3 { 0 => None, 1 => Some(1), _ => Some(2) } }
     }
 }
 /// a request as it arrives from a platform: encoded to CBOR and decoded again, with the option members that have
@@ -316,7 +319,7 @@ fn run_generic<S: Inner + 'static>(ctx: &mut Ctx, prop: &str, w: &World, inner: 
     auth.set_make_credential_id_length(CredentialIdLength::from(w.id_len));
     if let Some(c) = w.hm.cfg() { auth = auth.hmac_secret(c); }
     // the builder for the transport list (here: the default list again) keeps every other setting
-    if w.id_len % 2 == 0 { auth = auth.transports(vec![webauthn::AuthenticatorTransport::Internal, webauthn::AuthenticatorTransport::Hybrid]); }
+    if w.id_len % 2 == 0 { auth = auth.transports(match (w.id_len / 2) % 3 { 0 => vec![webauthn::AuthenticatorTransport::Internal, webauthn::AuthenticatorTransport::Hybrid], 1 => vec![], _ => vec![webauthn::AuthenticatorTransport::Usb] }); }
     ctx.line(&format!("au.reset {} {} {} {} {}", prop, w.kind.name(), w.counter_on as u8, w.id_len, w.hm.name()), "");
     for p in &w.preload { ctx.line(&format!("au.load {}", passkey_line(p)), ""); }
     let mut last_id: Option<Vec<u8>> = None;
@@ -426,10 +429,11 @@ fn run_generic<S: Inner + 'static>(ctx: &mut Ctx, prop: &str, w: &World, inner: 
             Op::Info => {
                 announce(&format!("au.info {}", st.uv.enc()));
                 let res = guarded(|| if via_trait() { block_on(passkey_authenticator::Ctap2Api::get_info(&auth)) } else { block_on(auth.get_info()) });
-                let r = match res { None => "panic".to_string(), Some(i) => {
+                let r = match &res { None => "panic".to_string(), Some(i) => {
                     let o = i.options.as_ref();
                     format!("ok:{}:{}:{}:{}:{}", i.extensions.as_ref().map(|e| e.iter().any(|x| matches!(x, passkey_types::ctap2::get_info::Extension::Prf)) as u8).unwrap_or(0),
                         o.map(|o| o.rk as u8).unwrap_or(9), o.map(|o| match o.uv { None => 'n', Some(false) => 'f', Some(true) => 't' }).unwrap_or('?'), o.map(|o| o.up as u8).unwrap_or(9), hexf(&i.aaguid.0)) } };
+                detail(|| match &res { None => "info panic".to_string(), Some(i) => format!("info {:?}", i) });
                 let ev = log.lock().unwrap().join(";");
                 ctx.stat("au.info");
                 ctx.line(&format!("au.info {}", st.uv.enc()), &format!("res={} ev={} store={}", r, if ev.is_empty() { "-".into() } else { ev }, snap(&auth.store().inner.all())));
